@@ -14,7 +14,7 @@ from .framework import CaseResult, Finding
 from .script import hx
 
 SL, DOT = 0x2f, 0x2e
-ALPHA = [0x2f, 0x2e, 0x61, 0x62, 0x5c, 0xc3, 0xa9]      # '/', '.', 'a', 'b', backslash, U+00E9
+ALPHA = [0x2f, 0x2e, 0x61, 0x62, 0x5c, 0x20, 0xc3, 0xa9]      # '/', '.', 'a', 'b', backslash, space, U+00E9
 
 
 def alphabet(ex, s):
@@ -120,7 +120,7 @@ def finding(ex, key, detail, base, arg, model=None, arg_first=None):
         model = ex.any_model()
     b, a = model_bytes(model, base), model_bytes(model, arg)
     lines = ['fs R mem', 'join p R %s' % hx(b), 'join q p %s' % hx(a), 'filename q', 'extension q', 'parent r q', 'is_root q',
-             'fs R2 mem', 'join q2 R2 %s' % hx(b), 'eq p q2', 'eq p p']
+             'fs R2 mem', 'join q2 R2 %s' % hx(b), 'eq p q2', 'eq p p', 'root rr1 p', 'root rr2 q2', 'eq rr1 rr2', 'parent pp1 p', 'eq pp1 rr2']
     f = Finding('C06', key, detail + ' [base=%r arg=%r]' % (b, a), lines, None)
     f.inputs = (b, a)
     return f
@@ -220,6 +220,22 @@ def run_case(prog, params):
             out.append(finding(ex, 'eq|same_instance_same_string_unequal', 'two paths of one instance with equal strings compare unequal', base, arg))
         if not e2.ok or ex.check(znot(e2.value), 'eq other fs') is not None:
             out.append(finding(ex, 'eq|other_instance_equal', 'paths of two filesystem instances compare equal', base, arg))
+        # products of root()/parent() of two different instances never compare equal either (whatever they share inside)
+        q2 = Adt('VfsPath', None, [S(got), root2.fields[1]])
+        r1, r2 = w.call('root', q), w.call('root', q2)
+        if r1.ok and r2.ok:
+            e4 = w.guard(lambda: w.F('<path::VfsPath as PartialEq>::eq', [ValRef(r1.value), ValRef(r2.value)]))
+            if not e4.ok or ex.check(znot(e4.value), 'eq roots of two fs') is not None:
+                out.append(finding(ex, 'eq|roots_of_two_instances_equal', 'root() of paths of two filesystem instances compare equal', base, arg))
+        pp1, pp2 = w.call('parent', q), w.call('parent', q2)
+        if pp1.ok and pp2.ok:
+            e5 = w.guard(lambda: w.F('<path::VfsPath as PartialEq>::eq', [ValRef(pp1.value), ValRef(pp2.value)]))
+            if not e5.ok or ex.check(znot(e5.value), 'eq parents of two fs') is not None:
+                out.append(finding(ex, 'eq|parents_of_two_instances_equal', 'parent() of paths of two filesystem instances compare equal', base, arg))
+            if r2.ok:
+                e6 = w.guard(lambda: w.F('<path::VfsPath as PartialEq>::eq', [ValRef(pp1.value), ValRef(r2.value)]))
+                if not e6.ok or ex.check(znot(e6.value), 'eq parent vs other root') is not None:
+                    out.append(finding(ex, 'eq|parent_equals_root_of_other_instance', 'parent() of a path equals root() of another filesystem instance', base, arg))
         if e3.ok:
             same = seq_eq(got, base) if len(got) == len(base) else False
             c = (e3.value == same) if (is_sym(e3.value) or is_sym(same)) else (e3.value == same)
